@@ -624,6 +624,9 @@ fn describe(c: &mut Case, d: &Data, params: &str) {
     if !params.is_empty() {
         c.input["params"] = json!(params);
     }
+    if std::env::var("C19_TRACE_INPUT").is_ok() {
+        eprintln!("{}", c.input);
+    }
     let n = d.x.len();
     c.out.count(&format!("search:n={}", if n < 5 { "<5" } else if n < 15 { "5..14" } else { ">=15" }));
 }
